@@ -29,7 +29,7 @@ LEAD = st.sampled_from([0, 0, 0, 1, 2, 3])
 REFIDS = st.sampled_from(['ref1', 'Ref Two', 'r-3', 'alpha', 'bravo', 'Charlie'])
 CFG_MMD = gdoc.Cfg(inlines=['t', 'em', 'st', 'code', 'link', 'reflink', 'auto', 'img', 'esc', 'ent', 'bare', 'smart', 'fnref', 'imath', 'sup'],
                    blocks=['para', 'atx', 'setext', 'hr', 'fence', 'icode', 'quote', 'list', 'table', 'deflist', 'figure', 'math'],
-                   lead=LEAD, sublists=True, refids=REFIDS, cell_inlines=['t', 'em', 'code', 'smart', 'esc', 'ent'],
+                   lead=LEAD, sublists=True, refids=REFIDS, cell_inlines=['t', 'em', 'code', 'smart', 'esc', 'ent'], cell_pad=st.sampled_from([True, True, 'open']),
                    heading_inlines=['t', 'em', 'st', 'code', 'smart', 'esc', 'ent', 'link'])
 CFG_COMPAT = gdoc.Cfg(inlines=['t', 'em', 'st', 'code', 'link', 'reflink', 'auto', 'img', 'esc', 'ent', 'bare'],
                       blocks=['para', 'atx', 'setext', 'hr', 'icode', 'quote', 'list'], lead=LEAD, sublists=True, refids=REFIDS,
@@ -41,8 +41,8 @@ NOT_MODELLED = ['reference images, parenthesised reference titles', 'raw HTML', 
 def strategy(tier):
     return st.one_of(
         st.fixed_dictionaries({'kind': st.just('model'), 'doc': gdoc.document(CFG_MMD), 'smart': st.booleans(), 'compat': st.just(False),
-                               'collide': st.sampled_from([0, 0, 1, 2]), 'nolabels': st.sampled_from([False, False, False, True])}),
-        st.fixed_dictionaries({'kind': st.just('model'), 'doc': gdoc.document(CFG_COMPAT), 'smart': st.booleans(), 'compat': st.just(True)}),
+                               'collide': st.sampled_from([0, 0, 1, 2]), 'nolabels': st.sampled_from([False, False, False, True]), 'mlabel': st.sampled_from([0, 1, 2, 2]), 'crlf': st.sampled_from([False, False, True])}),
+        st.fixed_dictionaries({'kind': st.just('model'), 'doc': gdoc.document(CFG_COMPAT), 'smart': st.booleans(), 'compat': st.just(True), 'crlf': st.sampled_from([False, False, True])}),
         st.fixed_dictionaries({'kind': st.just('comp'), 'doc': gdoc.document(CFG_COMP), 'smart': st.booleans(), 'compat': st.booleans()}),
     )
 
@@ -141,10 +141,20 @@ def check(case, ctx):
         src = gdoc.ser_doc(doc)
     if '\x00' in src:
         return
+    # a manual label on the last heading (`## Title [label]`), optionally as the very last bytes of the source (no final newline)
+    lastb = doc['blocks'][-1] if doc['blocks'] else None
+    use_ml = bool(case.get('mlabel')) and case['kind'] == 'model' and not compat and not nolabels and lastb is not None and lastb[0] == 'atx' and not lastb[3] \
+        and all(x[0] == 't' for x in lastb[2]) and not doc.get('defs') and not doc.get('notes') and src.endswith('\n') and not src.endswith('\n\n')
+    if use_ml:
+        src = src[:-1] + ' [zlabel]' + ('\n' if case['mlabel'] == 1 else '')
+        ctx.cls('manual_label_on_last_heading' + ('_at_end_of_input' if case['mlabel'] == 2 else ''))
     got = w.convert(src, 'html', ext).text
     kinds = gdoc.block_kinds(doc['blocks'])
     if case['kind'] == 'model':
         exp = htmlmodel.document(doc, smart=smart, compat=compat, nolabels=nolabels)
+        if use_ml:
+            i_ = exp.rfind('<h%d id="' % lastb[1])
+            exp = exp[:i_] + re.sub(r'^(<h\d id=")[^"]*"', r'\1zlabel"', exp[i_:])
         if nolabels:
             ctx.cls('mmd_nolabels')
         ctx.cls('model_compat' if compat else 'model_mmd')
@@ -169,6 +179,12 @@ def check(case, ctx):
             raise Violation(sig,
                             'smart=%s compat=%s first difference at line %d (%s)\nexpected: %r\ngot:      %r\nsource=%r\nexpected html=%r\nactual html=%r'
                             % (smart, compat, i + 1, tag.group(1) if tag else 'text', el[i] if i < len(el) else None, gl[i] if i < len(gl) else None, src, exp[:1200], got[:1200]))
+        # the same source with CRLF line endings is the same document (line endings inside code would be copied, so code-free documents only)
+        if case.get('crlf') and not ({'fence', 'icode'} & set(kinds)) and '`' not in src:
+            got2 = w.convert(src.replace('\n', '\r\n'), 'html', ext).text
+            if got2.replace('\r\n', '\n') != exp:
+                raise Violation('spelling:crlf-differs', 'smart=%s compat=%s\nsource (LF form)=%r\nwith CRLF: %r\nwith LF:   %r' % (smart, compat, src, got2[:1200], exp[:1200]))
+            ctx.cls('crlf_spelling_checked')
         inl_depth = 0
         for b in doc['blocks']:
             if b[0] == 'para':
